@@ -539,8 +539,9 @@ func main() {
 	idx4 := 1 << 20
 	for _, engine := range []string{"sherpa", "olla"} {
 		for _, bal := range []string{"priority", "round-robin", "least-connections"} {
-			e4(engine, bal, 2, d42, &idx4)
-			e4(engine, bal, 3, d43, &idx4)
+			e4(engine, bal, 2, d42, &idx4, false)
+			e4(engine, bal, 3, d43, &idx4, false)
+			e4(engine, bal, 3, d43, &idx4, true)
 		}
 	}
 	res.Info["E4"] = fmt.Sprintf("assembled system (2 engines x 3 balancers): every history ending in a request over {flip X, forced health round, request}, 2 endpoints depth %d, 3 endpoints depth %d; scripted backends see every dispatch", d42, d43)
